@@ -14,6 +14,7 @@ crash point; the in-place protocol does not).  Here:
 """
 import asyncio
 import builtins
+import errno
 import io
 import json
 import os
@@ -35,6 +36,8 @@ class _Proxy:
     def __init__(self, rec, path, mode, encoding):
         self.rec = rec
         self.path = path
+        self.name = path
+        self.mode = mode
         self.binary = "b" in mode
         self.encoding = encoding or "utf-8"
         self.pending = b""
@@ -71,7 +74,7 @@ class _Proxy:
         if self.fd is not None:
             view = memoryview(data)
             while len(view):
-                w = os.write(self.fd, view)
+                w = self.rec.real["os.write"](self.fd, view)
                 view = view[w:]
         self.pending = self.pending[len(data):]
 
@@ -80,7 +83,7 @@ class _Proxy:
             self.drain()
 
     def fileno(self):
-        return self.vfd
+        return self.fd if self.fd is not None else self.vfd
 
     def close(self):
         if self.closed:
@@ -155,10 +158,31 @@ class Recorder:
 
     def _fsync(self, fd):
         for x in self.proxies:
-            if x.vfd == fd:
+            if fd in (x.vfd, x.fd) and not x.closed:
                 self.tick(("fsync", self.rel(x.path)))
                 return None
         return self.real["os.fsync"](fd)
+
+    def _proxy_of(self, fd):
+        for x in self.proxies:
+            if not x.closed and fd in (x.vfd, x.fd):
+                return x
+        return None
+
+    def _sendfile(self, out_fd, in_fd, *a, **kw):
+        if self._proxy_of(out_fd) is not None:
+            # make copy helpers fall back to read()/write(), which are recorded
+            raise OSError(errno.ENOTSOCK, "recorder: no zero-copy into a recorded file")
+        return self.real["os.sendfile"](out_fd, in_fd, *a, **kw)
+
+    def _oswrite(self, fd, data):
+        x = self._proxy_of(fd)
+        if x is None:
+            return self.real["os.write"](fd, data)
+        if self.tick(("os-write", self.rel(x.path), bytes(data))):
+            x.drain()
+            return self.real["os.write"](x.fd, data)
+        return len(data)
 
     def _rename(self, name):
         def f(src, dst, **kw):
@@ -196,7 +220,10 @@ class Recorder:
             "open": builtins.open, "io.open": io.open, "os.open": os.open, "os.fsync": os.fsync,
             "os.fdatasync": os.fdatasync, "os.replace": os.replace, "os.rename": os.rename,
             "os.remove": os.remove, "os.unlink": os.unlink, "os.truncate": os.truncate,
+            "os.sendfile": os.sendfile, "os.write": os.write,
         }
+        os.sendfile = self._sendfile
+        os.write = self._oswrite
         builtins.open = self._open
         io.open = self._open
         os.fsync = self._fsync
@@ -218,6 +245,8 @@ class Recorder:
         os.remove = self.real["os.remove"]
         os.unlink = self.real["os.unlink"]
         os.truncate = self.real["os.truncate"]
+        os.sendfile = self.real["os.sendfile"]
+        os.write = self.real["os.write"]
         # a crash point after the last call
         if self.crash is not None and not self.frozen and len(self.ops) == self.crash[0]:
             self.freeze(self.crash[1])
@@ -370,7 +399,8 @@ class Driver:
             try:
                 self.run(st.save())
             except Exception as ex:          # the save itself raising is reported by the caller
-                err = "%s: %s" % (type(ex).__name__, ex)
+                if not rec.frozen:           # (whatever happens after the crash point is fiction)
+                    err = "%s: %s" % (type(ex).__name__, ex)
         files = {}
         for f in sorted(os.listdir(d)):
             with open(os.path.join(d, f), "rb") as fh:
@@ -448,10 +478,16 @@ def judge(loaded, load_err, expect_old, expect_new, ops):
     inplace = any(o[0].startswith("open-") and o[1] == TARGET for o in ops) or \
         any(o[0] in ("truncate", "remove") and o[1] == TARGET for o in ops)
     key = "C15:save:truncate-in-place" if inplace else "C15:save:not-atomic"
+    kinds = [o[0] for o in ops]
+    if kinds and kinds[0] == "open-trunc" and kinds[-1] == "close" and set(kinds[1:-1]) <= {"write"} \
+            and all(o[1] == TARGET for o in ops):
+        note = " [the recorded calls are the model's inplace_ops: theorem C15_inplace_refuted applies]"
+    else:
+        note = ""
     if load_err is not None:
-        return key, "after a crash during save() the storage file no longer loads (%s)" % load_err
+        return key, "after a crash during save() the storage file no longer loads (%s)%s" % (load_err, note)
     if loaded != expect_old and loaded != expect_new:
-        return key, "after a crash during save() the storage file holds neither the previous nor the new settings"
+        return key, "after a crash during save() the storage file holds neither the previous nor the new settings" + note
     return None
 
 
@@ -464,18 +500,23 @@ def run_scenario(ctx, drv, sc, limit, cases, only_crash=None):
     except Exception as ex:
         raise RuntimeError("old file of scenario %s does not load: %r" % (sc["name"], ex))
     # complete run: op list, pending sizes, and the unpatched reference result
-    d, full, files_full, expect_new, err = drv.save_with(sc, old_bytes, stale, None)
-    if err:
-        ctx.violation("C15:save:raises", "save() raised " + err, {"scenario": sc})
-        return
-    ops = full.ops
-    new_bytes = b"".join(o[2] for o in ops if o[0] == "write")
-    # completeness of the recording: the same save without any substitution gives the same directory
+    # reference: the same save without any substitution
     d_ref = drv.restore(old_bytes, stale)
     st = drv.storage(d_ref)
     drv.run(st.load())
     drv.set_devices(st, sc["new"])
-    drv.run(st.save())
+    try:
+        drv.run(st.save())
+    except Exception as ex:
+        ctx.tie_broken("save-raises", json.dumps({"scenario": sc["name"], "error": "%s: %s" % (type(ex).__name__, ex)}))
+        return
+    d, full, files_full, expect_new, err = drv.save_with(sc, old_bytes, stale, None)
+    if err:
+        ctx.tie_broken("correspondence:recorder-unsupported-call", json.dumps({"scenario": sc["name"], "error": err, "recorded_ops": op_names(full.ops)}))
+        return
+    ops = full.ops
+    new_bytes = b"".join(o[2] for o in ops if o[0] == "write")
+    # completeness of the recording: both runs leave the same directory
     ref = {}
     for f in sorted(os.listdir(d_ref)):
         with open(os.path.join(d_ref, f), "rb") as fh:
